@@ -99,5 +99,10 @@ func init() {
 			c.Corr("Field.Write", goFieldDecode(in), c.O.Ask("fielddec "+hx(in)), false)
 		}})
 		registerC01Objects(x)
+		for _, f := range c01Extra {
+			f(x)
+		}
 	}
 }
+
+var c01Extra []func(x *Ctx)
